@@ -539,7 +539,36 @@ def _execute_one(doc: dict, sysname: str) -> dict:
     def obj_blocks():
         return collections_of(obj)
 
+    # The internal view is only used while it is *understood*: on every fresh
+    # reference objective it must show exactly what get_differentials()
+    # returns, before and after that call. A refactoring that keeps the
+    # recorded data differently switches the view off (the public operations
+    # then decide alone) instead of raising a false alarm.
+    view = {"ok": None}
+
+    def view_rows(o):
+        sc, df = collections_of(o)
+        if isinstance(sc, str) or sc is None or df is None \
+                or len(sc) != len(df) or not len(sc):
+            return None
+        try:
+            return np.concatenate(list(sc)), np.concatenate(list(df))
+        except ValueError:
+            return None
+
+    def calibrate(before, got, after) -> None:
+        if view["ok"] is False:
+            return
+        good = all(v is not None and _arr_eq(v[0], np.asarray(got[0]))
+                   and _arr_eq(v[1], np.asarray(got[1]))
+                   for v in (before, after))
+        view["ok"] = bool(good)
+        if not good:
+            core.bump(res["probes"], "internal_view_switched_off")
+
     def check_ledger(after: str) -> bool:
+        if view["ok"] is not True:
+            return True     # internals not understood: decided at the ops only
         sc, df = obj_blocks()
         if isinstance(sc, str):
             return True     # internals not visible: decided at the ops only
@@ -602,9 +631,11 @@ def _execute_one(doc: dict, sysname: str) -> dict:
                 break
             fresh_blocks = []
             if supports and mode == "raw":
+                before = view_rows(fresh)
                 try:
                     gsc, gdf = fresh.get_differentials()
                     fresh_blocks = [(np.array(gsc), np.array(gdf))]
+                    calibrate(before, (gsc, gdf), view_rows(fresh))
                 except ValueError:
                     fresh_blocks = []   # nothing was recorded
             # ---- the object under test
@@ -872,7 +903,12 @@ def _execute_one(doc: dict, sysname: str) -> dict:
 
                 def solve(self, process):
                     hook["proc"] = process
-                    algo.solve(process)
+                    hook["in_solve"] = True
+                    try:
+                        algo.solve(process)
+                    finally:
+                        hook["in_solve"] = False
+                        hook["fes_at_end"] = int(process.get_consumed_fes())
 
                 def __str__(self):
                     return str(algo)
@@ -887,8 +923,27 @@ def _execute_one(doc: dict, sysname: str) -> dict:
             orig_set_model = obj.set_model
             k_term = op.get("terminate_at_model")
 
+            # every evaluation is observed together with the mode the
+            # objective is in: an evaluation booked by the real process must
+            # be a real-system evaluation
+            calls: list = []
+            cur = {"mode": "raw"}
+            orig_evaluate, orig_set_raw = obj.evaluate, obj.set_raw
+
+            def hooked_evaluate(x, _o=orig_evaluate):
+                calls.append((cur["mode"], bool(hook.get("in_solve")),
+                              np.array(x, dtype=float)))
+                return _o(x)
+
+            def hooked_set_raw(_o=orig_set_raw):
+                _o()
+                cur["mode"] = "raw"
+            obj.evaluate = hooked_evaluate
+            obj.set_raw = hooked_set_raw
+
             def hooked_set_model(eq, _o=orig_set_model):
                 _o(eq)
+                cur["mode"] = "model"
                 hook["n"] += 1
                 if k_term is not None and hook["n"] == int(k_term) \
                         and hook["proc"] is not None:
@@ -900,10 +955,24 @@ def _execute_one(doc: dict, sysname: str) -> dict:
                     pass
             except Exception:  # noqa: BLE001
                 pass
-            # (instance attribute removed again: back to the class method)
+            # (instance attributes removed again: back to the class methods)
             del obj.set_model
+            del obj.evaluate
+            del obj.set_raw
             res["events"].append(["surrogate_solve", hook["n"],
                                   hook["fired"]])
+            raw_in_solve = sum(1 for m, ins, _ in calls if m == "raw" and ins)
+            if "fes_at_end" in hook and raw_in_solve != hook["fes_at_end"]:
+                core.violation(
+                    res, "real-FE-not-a-real-system-evaluation",
+                    f"op {idx}: the real process booked {hook['fes_at_end']} "
+                    f"evaluations, but {raw_in_solve} evaluations took place "
+                    f"while the objective was on the real system (and "
+                    f"{sum(1 for m, i, _ in calls if m == 'model' and i)} on "
+                    f"a model)")
+                break
+            if any(m == "model" for m, _, _ in calls):
+                core.bump(res["probes"], "surrogate_model_phase_evaluations")
             core.bump(res["probes"], "surrogate_solve")
             if hook["fired"]:
                 core.bump(res["faults"], "cancel_in_model_phase")
@@ -916,6 +985,32 @@ def _execute_one(doc: dict, sysname: str) -> dict:
                 ledger[:] = [(np.array(gsc), np.array(gdf))]
             except ValueError:
                 ledger.clear()
+            # ... and that data is exactly what the real-system evaluations
+            # of this run record on a fresh objective, in their order
+            finst, _ = _build(doc["system"], sysname)
+            fresh = cls(finst, True)
+            for m, _, xv in calls:
+                if m == "raw":
+                    fresh.evaluate(xv)
+            try:
+                wsc, wdf = fresh.get_differentials()
+                want_rows = (np.array(wsc), np.array(wdf))
+            except ValueError:
+                want_rows = None
+            have = ledger[0] if ledger else None
+            if (want_rows is None) != (have is None) or (
+                    have is not None and not (
+                        _arr_eq(have[0], want_rows[0])
+                        and _arr_eq(have[1], want_rows[1]))):
+                core.violation(
+                    res, "surrogate-run-data-not-the-real-evaluations",
+                    f"op {idx}: after the surrogate run the objective holds "
+                    f"{0 if have is None else len(have[0])} recorded rows; "
+                    f"its {sum(1 for m, _, _ in calls if m == 'raw')} "
+                    f"real-system evaluations record "
+                    f"{0 if want_rows is None else len(want_rows[0])} rows "
+                    f"on a fresh objective")
+                break
         elif kind == "model_objective":
             if supports and sum(len(b[0]) for b in ledger) > 0:
                 q = np.array([unhex(v) for v in op["q"]], dtype=float)
